@@ -70,6 +70,8 @@ pub struct ExecStats {
     pub ticks: u64,
     pub spurious: u64,
     pub switches: u64,
+    /// hash of the sequence of task picks: identifies the interleaving
+    pub order_hash: u64,
 }
 
 /// Run several tasks until all are done. `sched[i]` decides step i:
@@ -81,7 +83,7 @@ pub fn run_tasks(
     timers: &Timers,
     max_ticks: u64,
 ) -> Result<ExecStats, ExecError> {
-    let mut st = ExecStats { ticks: 0, spurious: 0, switches: 0 };
+    let mut st = ExecStats { ticks: 0, spurious: 0, switches: 0, order_hash: 0xcbf29ce484222325 };
     let mut step = 0usize;
     let mut last = usize::MAX;
     loop {
@@ -113,6 +115,7 @@ pub fn run_tasks(
         if st.ticks > max_ticks {
             return Err(ExecError::Budget);
         }
+        st.order_hash = (st.order_hash ^ pick as u64).wrapping_mul(0x100000001b3);
         if pick != last {
             st.switches += 1;
             last = pick;
